@@ -274,6 +274,62 @@ theorem authTelnetP_single (cfg : Cfg) (userP passP : Bytes → Bool) (u p : Byt
         · exact authTelnetP_noRestart cfg userP passP u p umax pmax _ _ _ _ _
       · exact authTelnetP_noRestart cfg userP passP u p umax pmax _ _ _ _ _
 
+/-- `SendInput` with interim prompt patterns and / or eager: still one context for the whole
+    operation; without those options it is `sendInputP` -/
+theorem sendInputXP_single (cfg : Cfg) (cmd : Bytes) (T : Nat) (interim : List (Bytes → Bool))
+    (eager : Bool) : SingleRestart (sendInputXP cfg cmd T interim eager) T := by
+  refine ⟨_, _, _, rfl, fun _ => ?_⟩
+  cases eager with
+  | true => exact NoRestart.ret _
+  | false => exact NoRestart.io fun _ => NoRestart.ret _
+
+theorem sendInputXP_plain (cfg : Cfg) (cmd : Bytes) (T : Nat) :
+    sendInputXP cfg cmd T [] false = sendInputP cfg cmd T := rfl
+
+theorem authSSHP_noRestart (cfg : Cfg) (sshErr passP ppP : Bytes → Bool) (p pp : Bytes) (pmax ppmax : Nat) :
+    ∀ (f : Nat) (ws : List Bytes) (pc ppc : Nat),
+      NoRestart (authSSHP cfg sshErr passP ppP p pp pmax ppmax f ws pc ppc none) := by
+  intro f
+  induction f with
+  | zero => intro ws pc ppc; exact NoRestart.fail _
+  | succ f ih =>
+    intro ws pc ppc
+    simp only [authSSHP]
+    refine NoRestart.io fun b => ?_
+    split
+    · exact NoRestart.fail _
+    · split
+      · exact NoRestart.ret _
+      · split
+        · split
+          · exact NoRestart.fail _
+          · exact ih _ _ _
+        · split
+          · split
+            · exact NoRestart.fail _
+            · exact ih _ _ _
+          · exact NoRestart.fail _
+
+/-- in-channel SSH login (password, passphrase, retries, error texts): one timer for the whole login -/
+theorem authSSHP_single (cfg : Cfg) (sshErr passP ppP : Bytes → Bool) (p pp : Bytes) (pmax ppmax : Nat)
+    (f : Nat) (ws : List Bytes) (pc ppc : Nat) (T : Nat) :
+    SingleRestart (authSSHP cfg sshErr passP ppP p pp pmax ppmax (f + 1) ws pc ppc (some T)) T := by
+  simp only [authSSHP]
+  refine ⟨_, _, _, rfl, fun b => ?_⟩
+  split
+  · exact NoRestart.fail _
+  · split
+    · exact NoRestart.ret _
+    · split
+      · split
+        · exact NoRestart.fail _
+        · exact authSSHP_noRestart cfg sshErr passP ppP p pp pmax ppmax _ _ _ _
+      · split
+        · split
+          · exact NoRestart.fail _
+          · exact authSSHP_noRestart cfg sshErr passP ppP p pp pmax ppmax _ _ _ _
+        · exact NoRestart.fail _
+
 /-! ## for every stall point k -/
 
 /-- a one-phase operation (`GetPrompt`, the NETCONF hello, an RPC, a callback stage) whose device
@@ -313,8 +369,8 @@ theorem rpc_any_kind_stall_timeout (d : Nat) (hd : 0 < d) (frame : List Bytes) (
     after byte `k` of the exchange, for EVERY `k` strictly before the end: it stalls. -/
 theorem sendInput_stalls (cfg : Cfg) (cmd : Bytes) (T : Nat) (Se Sr : Bytes)
     (he : ExactAt (echoPred cfg cmd) Se) (hr : ExactAt (promptPred cfg) Sr)
-    (k : Nat) (hk : k < Se.length + Sr.length) :
-    Stalls (sendInputP cfg cmd T) [] [Se.take k, Sr.take (k - Se.length)] := by
+    (k : Nat) (hk : k < Se.length + Sr.length) (tail : List Bytes) :
+    Stalls (sendInputP cfg cmd T) [] (Se.take k :: Sr.take (k - Se.length) :: tail) := by
   unfold sendInputP
   by_cases h : k < Se.length
   · apply Stalls.here
@@ -327,6 +383,44 @@ theorem sendInput_stalls (cfg : Cfg) (cmd : Bytes) (T : Nat) (Se Sr : Bytes)
       intro j
       simpa using noPrefix_of_exactAt _ Sr hr (k - Se.length) (by omega) j
 
+/-- a send whose device answers completely completes exactly -/
+theorem sendInput_exactly (cfg : Cfg) (cmd : Bytes) (T : Nat) (Se Sr : Bytes)
+    (he : ExactAt (echoPred cfg cmd) Se) (hr : ExactAt (promptPred cfg) Sr) :
+    Exactly (sendInputP cfg cmd T) [] [Se, Sr] (processOut cfg Sr) := by
+  unfold sendInputP
+  apply Exactly.io (by simpa using he)
+  apply Exactly.io (by simpa using hr)
+  simpa using Exactly.ret (processOut cfg Sr)
+
+/-- A BATCH (`SendCommands`, `SendConfigs`, `…FromFile`: the sends one after the other, each with
+    its own context) whose device goes silent in the MIDDLE: after any number of sends that were
+    answered completely (`done`: command, echo, answer), at byte `k` of the next exchange, for
+    every `k` strictly before its end, whatever follows in the batch: the batch stalls (hence,
+    by `stall_yields_timeout_staged`, returns the timeout within one tick of that send's deadline,
+    never success). -/
+theorem batch_stalls_in_the_middle (cfg : Cfg) (T : Nat) (done : List (Bytes × Bytes × Bytes))
+    (hdone : ∀ x ∈ done, ExactAt (echoPred cfg x.1) x.2.1 ∧ ExactAt (promptPred cfg) x.2.2)
+    (c Se Sr : Bytes) (he : ExactAt (echoPred cfg c) Se) (hr : ExactAt (promptPred cfg) Sr)
+    (k : Nat) (hk : k < Se.length + Sr.length) (rest : List (Prog Bytes)) (tail : List Bytes) :
+    Stalls (seqP (done.map (fun x => sendInputP cfg x.1 T) ++ sendInputP cfg c T :: rest)) []
+      (done.flatMap (fun x => [x.2.1, x.2.2]) ++ Se.take k :: Sr.take (k - Se.length) :: tail) := by
+  induction done with
+  | nil =>
+    simp only [List.map_nil, List.nil_append, List.flatMap_nil]
+    exact seqP_stalls_head (sendInput_stalls cfg c T Se Sr he hr k hk tail) rest
+  | cons x xs ih =>
+    obtain ⟨hx1, hx2⟩ := hdone x (by simp)
+    have ih' := ih (fun y hy => hdone y (by simp [hy]))
+    have hex := sendInput_exactly cfg x.1 T x.2.1 x.2.2 hx1 hx2
+    cases xs with
+    | nil =>
+      simp only [List.map_cons, List.map_nil, List.nil_append, List.cons_append, List.flatMap_cons,
+        List.flatMap_nil] at ih' ⊢
+      exact seqP_stalls_later hex rest ih'
+    | cons y ys =>
+      simp only [List.map_cons, List.cons_append, List.flatMap_cons] at ih' ⊢
+      exact seqP_stalls_later hex _ ih'
+
 /-- hence, for every stall point, every segmentation and timing of the delivered bytes, every tick
     length and every timeout: timeout error, within one tick of `T`, never success -/
 theorem sendInput_stall_timeout (d : Nat) (hd : 0 < d) (cfg : Cfg) (cmd : Bytes) (T : Nat)
@@ -338,7 +432,7 @@ theorem sendInput_stall_timeout (d : Nat) (hd : 0 < d) (cfg : Cfg) (cmd : Bytes)
     st.now + T ≤ (run d (sendInputP cfg cmd T) st).2.now ∧
     (run d (sendInputP cfg cmd T) st).2.now < st.now + T + d := by
   obtain ⟨a, b, c⟩ := stall_yields_timeout d hd _ T (sendInputP_single cfg cmd T) [] _
-    (sendInput_stalls cfg cmd T Se Sr he hr k hk) st hq (by rw [hrs]; simp [h1, h2])
+    (sendInput_stalls cfg cmd T Se Sr he hr k hk []) st hq (by rw [hrs]; simp [h1, h2])
   rw [a]
   exact ⟨rfl, b, c⟩
 
